@@ -91,7 +91,8 @@ Definition gslot := (string * (gtexinfo * option N))%type.
 Record gmat := { gmt_name : string; gmt_color : list N;                         (* thousandths *)
                  gmt_metal : option N; gmt_rough : option N; gmt_emissive : option (list N);
                  gmt_alpha : option string; gmt_cutoff : option N;
-                 gmt_texs : list gslot; gmt_exts : list string }.
+                 gmt_texs : list gslot; gmt_exts : list string;
+                 gmt_extras : N }.                  (* class of the entry's "extras" object (0 = none) *)
 Record glight := { gl_type : string; gl_color : option (list N); gl_range : option N; gl_intensity : option N }.
 Record summary := {
   s_buffers : list N; s_views : list view; s_accs : list accessor; s_meshes : list gmesh;
@@ -112,7 +113,8 @@ Record ppbr := { pb_color : option color16; pb_tex : option ptexture; pb_metal :
 Record matext := { mx_id : string; mx_class : N; mx_texs : list (string * ptexture) }.
 Record pmaterial := { pm_ptr : N; pm_name : string; pm_pbr : option ppbr; pm_exts : list matext;
                       pm_normal : option (ptexture * option N); pm_occ : option (ptexture * option N);
-                      pm_emissive : option color16; pm_alpha : option string; pm_cutoff : option N }.
+                      pm_emissive : option color16; pm_alpha : option string; pm_cutoff : option N;
+                      pm_extras : N }.              (* class of Extras under deep equality (harness; 0 = nil / empty) *)
 Record pmesh := { me_ptr : N; me_point : bool;
                   me_v4 : list (string * vdata); me_v3 : list (string * vdata); me_v2 : list (string * vdata);
                   me_idx : list N; me_v1len : N }.
@@ -241,13 +243,15 @@ Definition pbr_equal (a b : option ppbr) : bool :=
       && ptex_equal (pb_tex x) (pb_tex y) && ptex_equal (pb_mrtex x) (pb_mrtex y)
   | _, _ => false
   end.
-(* PolyformMaterial.equal (after fix 74566f1: normal and occlusion textures take part) *)
+(* PolyformMaterial.equal (after fix 74566f1: normal and occlusion textures take part; after fix fd7cca0: the
+   extras, which AddMaterial writes into the entry, take part) *)
 Definition mat_equal (a b : pmaterial) : bool :=
   String.eqb (pm_name a) (pm_name b) && pbr_equal (pm_pbr a) (pm_pbr b)
   && opt_eqb listN_eqb (pm_emissive a) (pm_emissive b)
   && ptexs_equal (pm_normal a) (pm_normal b) && ptexs_equal (pm_occ a) (pm_occ b)
   && opt_eqb String.eqb (pm_alpha a) (pm_alpha b) && optN_eqb (pm_cutoff a) (pm_cutoff b)
-  && list_eqb N.eqb (map mx_class (pm_exts a)) (map mx_class (pm_exts b)).
+  && list_eqb N.eqb (map mx_class (pm_exts a)) (map mx_class (pm_exts b))
+  && (pm_extras a =? pm_extras b).
 Definition strs_eqb := list_eqb String.eqb.
 (* Texture.equal on what the writer builds: source, sampler; texture-level extensions are never set *)
 Definition gtex_eqb (a b : gtex) : bool :=
@@ -320,7 +324,8 @@ Definition build_material (m : pmaterial) (x : texst) : gmat * texst :=
       gmt_emissive := option_map rgb_millis (pm_emissive m);
       gmt_alpha := pm_alpha m; gmt_cutoff := pm_cutoff m;
       gmt_texs := fst acc;
-      gmt_exts := fold_left (fun u e => add_str (mx_id e) u) (pm_exts m) [] |}, snd acc).
+      gmt_exts := fold_left (fun u e => add_str (mx_id e) u) (pm_exts m) [];
+      gmt_extras := pm_extras m |}, snd acc).
 
 (* alphaCutoff without alphaMode = MASK: AddMaterial returns an error and the whole write fails *)
 Definition mat_invalid (m : pmaterial) : bool :=
@@ -685,7 +690,8 @@ Definition mat_matches (s : summary) (m : pmaterial) (g : gmat) : bool :=
   && Nat.eqb (length (gmt_texs g)) (length (want_slots m))
   && forallb (fun w => match slot_get (fst w) (gmt_texs g) with
                        | Some (ti, extra) => tex_matches s (fst (snd w)) ti && optN_eqb extra (snd (snd w))
-                       | None => false end) (want_slots m).
+                       | None => false end) (want_slots m)
+  && (gmt_extras g =? pm_extras m).
 
 (* texture pointers of a material with the texture index they were given: for "same pointer => same index" *)
 Definition mat_tex_refs (m : pmaterial) (g : gmat) : list (N * N) :=
@@ -969,7 +975,8 @@ Definition mat_eqb (a b : gmat) : bool :=
   String.eqb (gmt_name a) (gmt_name b) && listN_eqb (gmt_color a) (gmt_color b)
   && optN_eqb (gmt_metal a) (gmt_metal b) && optN_eqb (gmt_rough a) (gmt_rough b)
   && opt_listN_eqb (gmt_emissive a) (gmt_emissive b) && opt_eqb String.eqb (gmt_alpha a) (gmt_alpha b)
-  && optN_eqb (gmt_cutoff a) (gmt_cutoff b) && slots_eqb (gmt_texs a) (gmt_texs b) && set_eqb (gmt_exts a) (gmt_exts b).
+  && optN_eqb (gmt_cutoff a) (gmt_cutoff b) && slots_eqb (gmt_texs a) (gmt_texs b) && set_eqb (gmt_exts a) (gmt_exts b)
+  && (gmt_extras a =? gmt_extras b).
 Definition summary_eqb (a b : summary) : bool :=
   listN_eqb (s_buffers a) (s_buffers b) && list_eqb view_eqb (s_views a) (s_views b)
   && list_eqb acc_eqb (s_accs a) (s_accs b) && list_eqb mesh_eqb (s_meshes a) (s_meshes b)
